@@ -371,45 +371,53 @@ Qed.
 Definition plain_rows (rows : list (list (csv_quoter * str))) : list (list str) :=
   map (map snd) rows.
 
-(* a cell the RFC 4180 reader recovers: written by quoted_rfc, or by quoted when it holds no
-   double quote (the two functions then write the same text) *)
+(* a cell the RFC 4180 reader recovers: written by quoted_rfc, or by quoted when it holds neither a
+   double quote nor a backslash (the two functions then write the same text) *)
 Definition rfc_ok (c : csv_quoter * str) : Prop :=
   match fst c with
   | QRfc => True
-  | QDefault => ~ In 34 (snd c)
+  | QDefault => ~ In 34 (snd c) /\ ~ In 92 (snd c)
   | _ => False
   end.
 
-(* a cell the backslash reader recovers: written by quoted and free of backslashes, or written
-   by quoted_rfc and free of both *)
+(* a cell the backslash reader recovers: anything written by quoted; written by quoted_rfc when
+   it holds neither a double quote nor a backslash *)
 Definition bs_ok (c : csv_quoter * str) : Prop :=
   match fst c with
-  | QDefault => ~ In 92 (snd c)
+  | QDefault => True
   | QRfc => ~ In 34 (snd c) /\ ~ In 92 (snd c)
   | _ => False
   end.
 
-Lemma quoted_eq_rfc_without_quote f : ~ In 34 f -> csv_quoted f = csv_quoted_rfc f.
+Lemma csv_esc_absent f : ~ In 34 f -> ~ In 92 f -> flat_map csv_esc f = f.
 Proof.
-  intros H. unfold csv_quoted, csv_quoted_rfc.
-  rewrite !replace_char_absent by exact H. reflexivity.
+  induction f as [|x f IH]; intros H34 H92; [reflexivity|].
+  cbn [flat_map]. unfold csv_esc at 1.
+  destruct (Z.eqb_spec x 34) as [->|_]; [exfalso; apply H34; left; reflexivity|].
+  destruct (Z.eqb_spec x 92) as [->|_]; [exfalso; apply H92; left; reflexivity|].
+  cbn [app]. f_equal. apply IH; intros Hin; [apply H34|apply H92]; right; exact Hin.
+Qed.
+
+Lemma quoted_eq_rfc_plain f : ~ In 34 f -> ~ In 92 f -> csv_quoted f = csv_quoted_rfc f.
+Proof.
+  intros H34 H92. unfold csv_quoted, csv_quoted_rfc.
+  rewrite csv_esc_absent by assumption. rewrite replace_char_absent by exact H34. reflexivity.
 Qed.
 
 Lemma rfc_ok_cell c : rfc_ok c -> apply_quoter (fst c) (snd c) = csv_quoted_rfc (snd c).
 Proof.
   destruct c as [q f]. unfold rfc_ok. cbn [fst snd].
   destruct q; cbn [apply_quoter]; intros H; try contradiction.
-  - apply quoted_eq_rfc_without_quote, H.
+  - destruct H. apply quoted_eq_rfc_plain; assumption.
   - reflexivity.
 Qed.
 
-Lemma bs_ok_cell c : bs_ok c -> apply_quoter (fst c) (snd c) = csv_quoted (snd c) /\ ~ In 92 (snd c).
+Lemma bs_ok_cell c : bs_ok c -> apply_quoter (fst c) (snd c) = csv_quoted (snd c).
 Proof.
   destruct c as [q f]. unfold bs_ok. cbn [fst snd].
   destruct q; cbn [apply_quoter]; intros H; try contradiction.
-  - split; [reflexivity|exact H].
-  - destruct H as [H1 H2]. split; [|exact H2].
-    symmetry. apply quoted_eq_rfc_without_quote, H1.
+  - reflexivity.
+  - destruct H. symmetry. apply quoted_eq_rfc_plain; assumption.
 Qed.
 
 (* --- RFC reader --- *)
@@ -472,35 +480,34 @@ Qed.
 
 (* --- backslash reader --- *)
 Lemma bs_body f : forall acc row r,
-  ~ In 92 f ->
-  csv_bs BsQ acc row (replace_char 34 [92; 34] f ++ 34 :: r) = csv_bs BsEnd (acc ++ f) row r.
+  csv_bs BsQ acc row (flat_map csv_esc f ++ 34 :: r) = csv_bs BsEnd (acc ++ f) row r.
 Proof.
-  induction f as [|x f IH]; intros acc row r Hn.
+  induction f as [|x f IH]; intros acc row r.
   - cbn. rewrite app_nil_r. reflexivity.
-  - assert (Hx : x <> 92) by (intros ->; apply Hn; left; reflexivity).
-    assert (Hf : ~ In 92 f) by (intros Hin; apply Hn; right; exact Hin).
-    cbn [replace_char]. destruct (Z.eqb_spec x 34) as [->|Hq].
-    + cbn [app csv_bs]. cbn. rewrite IH by exact Hf. rewrite <- app_assoc. reflexivity.
-    + cbn [app csv_bs]. destruct (Z.eqb_spec x 34); [contradiction|].
-      destruct (Z.eqb_spec x 92); [contradiction|].
-      rewrite IH by exact Hf. rewrite <- app_assoc. reflexivity.
+  - cbn [flat_map]. unfold csv_esc at 1.
+    destruct (Z.eqb_spec x 34) as [->|Hq].
+    + cbn [app csv_bs]. cbn. rewrite IH. rewrite <- app_assoc. reflexivity.
+    + destruct (Z.eqb_spec x 92) as [->|Hn].
+      * cbn [app csv_bs]. cbn. rewrite IH. rewrite <- app_assoc. reflexivity.
+      * cbn [app csv_bs].
+        destruct (Z.eqb_spec x 34); [contradiction|].
+        destruct (Z.eqb_spec x 92); [contradiction|].
+        rewrite IH. rewrite <- app_assoc. reflexivity.
 Qed.
 
 Lemma bs_cell_comma f fld row r :
-  ~ In 92 f ->
   csv_bs BsStart fld row (csv_quoted f ++ 44 :: r) = csv_bs BsStart [] (row ++ [f]) r.
 Proof.
-  intros H. unfold csv_quoted. cbn [app csv_bs]. cbn. rewrite <- app_assoc. cbn [app].
-  rewrite bs_body by exact H. reflexivity.
+  unfold csv_quoted. cbn [app csv_bs]. cbn. rewrite <- app_assoc. cbn [app].
+  rewrite bs_body. reflexivity.
 Qed.
 
 Lemma bs_cell_newline f fld row r :
-  ~ In 92 f ->
   csv_bs BsStart fld row (csv_quoted f ++ 10 :: r)
   = option_map (cons (row ++ [f])) (csv_bs BsStart [] [] r).
 Proof.
-  intros H. unfold csv_quoted. cbn [app csv_bs]. cbn. rewrite <- app_assoc. cbn [app].
-  rewrite bs_body by exact H. reflexivity.
+  unfold csv_quoted. cbn [app csv_bs]. cbn. rewrite <- app_assoc. cbn [app].
+  rewrite bs_body. reflexivity.
 Qed.
 
 Lemma bs_row cells : forall row0 r,
@@ -511,15 +518,15 @@ Proof.
   unfold csv_row_text, src_csv_separator, src_csv_terminator.
   induction cells as [|c cells IH]; intros row0 r Hne Hok; [contradiction|].
   inversion Hok as [|? ? Hc Hrest]; subst.
-  destruct (bs_ok_cell c Hc) as [Hq Hn].
+  pose proof (bs_ok_cell c Hc) as Hq.
   destruct cells as [|d cells].
   - cbn [map intercalate]. rewrite Hq. rewrite <- app_assoc. cbn [app].
-    apply bs_cell_newline, Hn.
+    apply bs_cell_newline.
   - change (intercalate [44] (map (fun c0 => apply_quoter (fst c0) (snd c0)) (c :: d :: cells)))
       with (apply_quoter (fst c) (snd c) ++ [44] ++
             intercalate [44] (map (fun c0 => apply_quoter (fst c0) (snd c0)) (d :: cells))).
     rewrite Hq. rewrite <- !app_assoc. cbn [app].
-    rewrite bs_cell_comma by exact Hn.
+    rewrite bs_cell_comma.
     change (10 :: r) with ([10] ++ r). rewrite app_assoc.
     etransitivity; [apply (IH (row0 ++ [snd c]) r); [discriminate|exact Hrest]|].
     rewrite <- app_assoc. reflexivity.
@@ -564,20 +571,21 @@ Qed.
 
 Lemma csv_out_default_rfc fmt xs :
   fmt <> [] -> all_quoter QDefault fmt ->
-  (forall x p f, In x xs -> In p (x_posts x) -> ~ In 34 (field_value x p f)) ->
+  (forall x p f, In x xs -> In p (x_posts x) ->
+                 ~ In 34 (field_value x p f) /\ ~ In 92 (field_value x p f)) ->
   csv_read_rfc (csv_out fmt xs) = Some (plain_rows (csv_rows fmt xs)).
 Proof.
   intros Hne Hq Hf. apply csv_rfc_read_lemma. apply csv_rows_forall; [exact Hne|].
   intros x p qf Hx Hp Hin. unfold rfc_ok. cbn [fst snd]. rewrite (Hq qf Hin). apply Hf; assumption.
 Qed.
 
+(* the backslash reader recovers every report written with quoted(), whatever the fields hold *)
 Lemma csv_out_default_bs fmt xs :
   fmt <> [] -> all_quoter QDefault fmt ->
-  (forall x p f, In x xs -> In p (x_posts x) -> ~ In 92 (field_value x p f)) ->
   csv_read_bs (csv_out fmt xs) = Some (plain_rows (csv_rows fmt xs)).
 Proof.
-  intros Hne Hq Hf. apply csv_bs_read_lemma. apply csv_rows_forall; [exact Hne|].
-  intros x p qf Hx Hp Hin. unfold bs_ok. cbn [fst snd]. rewrite (Hq qf Hin). apply Hf; assumption.
+  intros Hne Hq. apply csv_bs_read_lemma. apply csv_rows_forall; [exact Hne|].
+  intros x p qf Hx Hp Hin. unfold bs_ok. cbn [fst]. rewrite (Hq qf Hin). exact I.
 Qed.
 
 Lemma all_quoter_dec q fmt :
@@ -781,70 +789,4 @@ Proof.
   destruct xs as [|x xs]; [reflexivity|].
   unfold emacs_tokens, emacs_sexp. cbn [sexp_parse].
   rewrite parse_xacts. cbn [sexp_parse]. rewrite app_nil_r, rev_involutive. reflexivity.
-Qed.
-
-(* ------------------------------------------------------------------------------------------ *)
-(* the repair proposed for finding F10: fn_quoted also writes a backslash as two backslashes
-   (the same escaping as emacs.cc escape_string).  With it the backslash reader recovers every
-   row, whatever the fields hold.                                                              *)
-
-Definition csv_quoted_patched (s : str) : str := 34 :: flat_map esc1 s ++ [34].
-
-Definition csv_text_patched (rows : list (list str)) : str :=
-  flat_map (fun row => intercalate [44] (map csv_quoted_patched row) ++ [10]) rows.
-
-Lemma bs_body_patched f : forall acc row r,
-  csv_bs BsQ acc row (flat_map esc1 f ++ 34 :: r) = csv_bs BsEnd (acc ++ f) row r.
-Proof.
-  induction f as [|x f IH]; intros acc row r.
-  - cbn. rewrite app_nil_r. reflexivity.
-  - cbn [flat_map]. unfold esc1 at 1.
-    destruct (Z.eqb_spec x 92) as [->|Hn].
-    + cbn [app csv_bs]. cbn. rewrite IH. rewrite <- app_assoc. reflexivity.
-    + destruct (Z.eqb_spec x 34) as [->|Hq].
-      * cbn [app csv_bs]. cbn. rewrite IH. rewrite <- app_assoc. reflexivity.
-      * cbn [app csv_bs].
-        destruct (Z.eqb_spec x 34); [contradiction|].
-        destruct (Z.eqb_spec x 92); [contradiction|].
-        rewrite IH. rewrite <- app_assoc. reflexivity.
-Qed.
-
-Lemma bs_cell_patched_comma f fld row r :
-  csv_bs BsStart fld row (csv_quoted_patched f ++ 44 :: r) = csv_bs BsStart [] (row ++ [f]) r.
-Proof.
-  unfold csv_quoted_patched. cbn [app csv_bs]. cbn. rewrite <- app_assoc. cbn [app].
-  rewrite bs_body_patched. reflexivity.
-Qed.
-
-Lemma bs_cell_patched_newline f fld row r :
-  csv_bs BsStart fld row (csv_quoted_patched f ++ 10 :: r)
-  = option_map (cons (row ++ [f])) (csv_bs BsStart [] [] r).
-Proof.
-  unfold csv_quoted_patched. cbn [app csv_bs]. cbn. rewrite <- app_assoc. cbn [app].
-  rewrite bs_body_patched. reflexivity.
-Qed.
-
-Lemma bs_row_patched cells : forall row0 r,
-  cells <> [] ->
-  csv_bs BsStart [] row0 ((intercalate [44] (map csv_quoted_patched cells) ++ [10]) ++ r)
-  = option_map (cons (row0 ++ cells)) (csv_bs BsStart [] [] r).
-Proof.
-  induction cells as [|c cells IH]; intros row0 r Hne; [contradiction|].
-  destruct cells as [|d cells].
-  - cbn [map intercalate]. rewrite <- app_assoc. cbn [app]. apply bs_cell_patched_newline.
-  - change (intercalate [44] (map csv_quoted_patched (c :: d :: cells)))
-      with (csv_quoted_patched c ++ [44] ++ intercalate [44] (map csv_quoted_patched (d :: cells))).
-    rewrite <- !app_assoc. cbn [app]. rewrite bs_cell_patched_comma.
-    change (10 :: r) with ([10] ++ r). rewrite app_assoc.
-    etransitivity; [apply (IH (row0 ++ [c]) r); discriminate|].
-    rewrite <- app_assoc. reflexivity.
-Qed.
-
-Lemma csv_patched_read_lemma rows :
-  Forall (fun row => row <> []) rows -> csv_read_bs (csv_text_patched rows) = Some rows.
-Proof.
-  unfold csv_read_bs, csv_text_patched.
-  induction rows as [|row rows IH]; intros H; [reflexivity|].
-  inversion H as [|? ? Hne Hrest]; subst.
-  cbn [flat_map]. rewrite (bs_row_patched row [] _ Hne). rewrite (IH Hrest). reflexivity.
 Qed.
